@@ -131,3 +131,65 @@ impl Program {
         }
     }
 }
+
+
+/// Occurrences of each Luau extension in a source text, counted by the independent parser.
+#[derive(Debug, Clone, Default, PartialEq)]
+pub struct Census {
+    pub compound_assign: usize,
+    pub continue_stmt: usize,
+    pub if_expression: usize,
+    pub interpolated_string: usize,
+    pub floor_division: usize,
+    pub luau_number: usize,
+    pub const_decl: usize,
+    /// annotations, return types, generic lists, casts, type declarations, explicit instantiations
+    pub type_syntax: usize,
+    pub attributes: usize,
+}
+
+/// Parses `src` (on the current thread) and counts the Luau extensions it uses.
+pub fn census(src: &[u8], dialect: Dialect) -> Result<(Program, Census), ParseError> {
+    types::TYPE_SYNTAX.with(|c| c.set(0));
+    types::ATTRIBUTES.with(|c| c.set(0));
+    types::DISCARDED.with(|d| d.borrow_mut().clear());
+    let prog = parse_on_current_thread(src, dialect, ParseOptions::default())?;
+    let mut c = Census::default();
+    c.type_syntax = types::TYPE_SYNTAX.with(|c| c.get());
+    c.attributes = types::ATTRIBUTES.with(|c| c.get());
+    // nodes of expressions inside `typeof(...)` are not part of the program but still count as occurrences
+    let discarded: Vec<Node> = types::DISCARDED.with(|d| {
+        d.borrow()
+            .iter()
+            .map(|(k, s, cc)| {
+                let mut n = Node::new(k);
+                n.s = s.clone();
+                n.c = *cc;
+                n
+            })
+            .collect()
+    });
+    for n in prog.nodes.iter().chain(discarded.iter()) {
+        match n.k.as_str() {
+            "compound" => c.compound_assign += 1,
+            "continue" => c.continue_stmt += 1,
+            "ifexp" => c.if_expression += 1,
+            "interp" => c.interpolated_string += 1,
+            "bin" if n.s == b"//" => c.floor_division += 1,
+            "compound_dummy" => {}
+            "num" => {
+                let t = &n.s;
+                if t.contains(&b'_') || t.starts_with(b"0b") || t.starts_with(b"0B") {
+                    c.luau_number += 1;
+                }
+            }
+            "local" | "localfn" if n.c == 1 => c.const_decl += 1,
+            "cast" | "tinst" | "typedecl" => c.type_syntax += 1,
+            _ => {}
+        }
+        if n.k == "compound" && n.s == b"//" {
+            c.floor_division += 1;
+        }
+    }
+    Ok((prog, c))
+}
